@@ -204,7 +204,7 @@ func RunCheck(propFile, tier string, only string, verbose bool) int {
 				res[i] = RunHarness(l, fn, HarnessConfig{Unwind: ts.Unwind, BranchTimeoutMs: ts.BranchMs, InitPkgs: g.Init, Merge: true, Tier: tier})
 				if verbose {
 					r := res[i]
-					fmt.Printf("explored %s: paths=%d obligations=%d errors=%d (%.1fs)\n", r.Name, r.Paths, len(r.Obligations), len(r.Errors), r.Secs)
+					fmt.Printf("explored %s: paths=%d obligations=%d errors=%d (%.1fs, %d branch queries %.1fs)\n", r.Name, r.Paths, len(r.Obligations), len(r.Errors), r.Secs, r.BranchQueries, r.BranchSecs)
 				}
 			}()
 		}
